@@ -21,7 +21,7 @@ def main():
     ap.add_argument("patch")
     ap.add_argument("ids", nargs="+")
     a = ap.parse_args()
-    tmp = tempfile.mkdtemp(prefix="gwf-mut-", dir="/dev/shm")
+    tmp = tempfile.mkdtemp(prefix=f"gwf-mut-x-p{os.getpid()}-", dir="/dev/shm")
     rc_all = 0
     try:
         dst = os.path.join(tmp, "repo")
@@ -31,6 +31,8 @@ def main():
         if diff.strip():
             subprocess.run(["git", "-C", dst, "apply"], input=diff, text=True, check=True)
         r = subprocess.run(["git", "-C", dst, "apply", os.path.abspath(a.patch)], capture_output=True, text=True)
+        if r.returncode != 0:
+            r = subprocess.run(["git", "-C", dst, "apply", "--3way", os.path.abspath(a.patch)], capture_output=True, text=True)
         if r.returncode != 0:
             print("PATCH DOES NOT APPLY:", r.stderr)
             return 3
